@@ -191,7 +191,7 @@ class VariableBoundVisitor(ModelVisitor):
                         lhs_bounds, 
                         e.op, 
                         e.rhs)
-            elif rhs_fm is not None:
+            elif rhs_bounds is not None:
                 # right-hand field and no left-hand field
                 if lhs_is_nonrand:
                     propagator = self.lhsnre_rhsvar_propagator(
